@@ -152,6 +152,7 @@ static qtreetbl_obj_t *remove_obj(qtreetbl_t *tbl, qtreetbl_obj_t *obj,
                                   const void *name, size_t namesize);
 static void free_objs(qtreetbl_obj_t *obj);
 static uint8_t reset_iterator(qtreetbl_t *tbl);
+static void clear_tids(qtreetbl_obj_t *obj);
 
 struct branch_obj_s {
     struct branch_obj_s *p;
@@ -1318,11 +1319,27 @@ static void free_objs(qtreetbl_obj_t *obj) {
     free(obj);
 }
 
+static void clear_tids(qtreetbl_obj_t *obj) {
+    if (obj == NULL) {
+        return;
+    }
+    obj->tid = 0;
+    clear_tids(obj->left);
+    clear_tids(obj->right);
+}
+
 static uint8_t reset_iterator(qtreetbl_t *tbl) {
     if (tbl->root != NULL) {
         tbl->root->next = NULL;
     }
-    return (++tbl->tid);
+    if (++tbl->tid == 0) {
+        // The 8-bit travel id wrapped around. Ids left on the nodes by earlier
+        // travels (and 0, the id of new nodes) would be taken for visited marks
+        // of a new travel, so wipe them out and start over.
+        clear_tids(tbl->root);
+        tbl->tid = 1;
+    }
+    return tbl->tid;
 }
 
 static void print_branch(struct branch_obj_s *branch, FILE *out) {
